@@ -202,8 +202,9 @@ pub mod leveldb {
 // ---------------------------------------------------------------------------------------
 // fs: in-memory ghost files. `File` is identified by a small integer fd derived from the
 // first byte of the path (b'0' + fd) or constructed directly with File::ghost(fd).
-//  * write(): may fail at any call when FAULTS_ON (symbolic per call), may be short when
-//    SHORT_ON; accepted bytes are counted per fd and the first LOGCAP bytes are kept.
+//  * write(): the k-th call fails iff FAULT_AT[k], is short (1 byte) iff SHORT_AT[k]; both
+//    schedules are pre-drawn by the harness; accepted bytes are counted per fd and the first
+//    LOGCAP bytes are kept.
 //  * read()/seek(): over DATA[fd][..LEN[fd]] (harness-provided content), or, when FUNC_ON,
 //    over an unbounded sparse file whose byte at position p is func_byte(fd, p) up to LEN64.
 //  * rename(): records the call and snapshots the accepted-byte counters.
@@ -223,8 +224,9 @@ pub mod fs {
     pub static mut OPENS: [usize; NFILES] = [0; NFILES];
     pub static mut LIVE: [usize; NFILES] = [0; NFILES]; // open handles currently alive
 
-    pub static mut FAULTS_ON: bool = false;
-    pub static mut SHORT_ON: bool = false;
+    pub const NSCHED: usize = 12;
+    pub static mut FAULT_AT: [bool; NSCHED] = [false; NSCHED];
+    pub static mut SHORT_AT: [bool; NSCHED] = [false; NSCHED];
     pub static mut WRITE_FAILED: bool = false;
     pub static mut WRITE_CALLS: usize = 0;
     pub static mut ACCEPTED: [usize; NFILES] = [0; NFILES];
@@ -288,18 +290,17 @@ pub mod fs {
     impl Write for File {
         fn write(&mut self, buf: &[u8]) -> io::Result<usize> {
             unsafe {
+                let call = WRITE_CALLS;
                 WRITE_CALLS += 1;
-                if FAULTS_ON {
-                    let fail: bool = kani::any();
-                    if fail {
-                        WRITE_FAILED = true;
-                        return Err(io::Error::from(io::ErrorKind::Other));
-                    }
+                // fault schedule pre-drawn by the harness (no kani::any() here: the native replay
+                // must see the same schedule whatever the number of write calls)
+                if call < NSCHED && FAULT_AT[call] {
+                    WRITE_FAILED = true;
+                    return Err(io::Error::from(io::ErrorKind::Other));
                 }
                 let mut n = buf.len();
-                if SHORT_ON && n > 1 {
-                    let short: bool = kani::any();
-                    if short { n = 1; }
+                if call < NSCHED && SHORT_AT[call] && n > 1 {
+                    n = 1;
                 }
                 let fd = self.fd;
                 let mut i = 0;
@@ -402,12 +403,18 @@ pub mod process {
             EXITED = true;
             if let Some(f) = AT_EXIT { f(code); }
         }
-        if cfg!(test) {
-            std::panic::panic_any(ExitMarker(code));
-        } else {
-            kani::assume(false);
-            loop {}
-        }
+        exit_end(code)
+    }
+    #[cfg(test)]
+    fn exit_end(code: i32) -> ! {
+        // native replay: the AT_EXIT assertions passed; end the test process cleanly
+        println!("VERIF_EXIT_MODEL code={}", code);
+        std::process::exit(0)
+    }
+    #[cfg(not(test))]
+    fn exit_end(_code: i32) -> ! {
+        kani::assume(false);
+        loop {}
     }
 }
 
@@ -425,5 +432,338 @@ pub mod time {
         fn sub(self, o: Instant) -> Duration {
             Duration::from_secs(self.0.saturating_sub(o.0))
         }
+    }
+}
+
+// ---------------------------------------------------------------------------------------
+// ghost: uninterpreted hashes and recording encoders (used through #[kani::stub]).
+// Rule: stubs never call kani::any(); symbolic digests are pre-drawn by the harness with
+// ghost::init(kani::any()), so the native concrete playback draws exactly the same values.
+// Dual-mode oracle helpers: under CBMC they check the ghost call log, in the native replay
+// (cfg(test), stubs not applied) they compute the real function. The harness assertions are
+// therefore the same source text in both modes.
+// ---------------------------------------------------------------------------------------
+pub mod ghost {
+    use bitcoin::hashes::{hash160, sha256, sha256d, Hash};
+    use std::fmt;
+
+    pub const MAXCALLS: usize = 12;
+    pub const PRE: usize = 272;
+    pub static mut DIGESTS: [[u8; 32]; MAXCALLS] = [[0; 32]; MAXCALLS];
+    pub static mut N_FIN: usize = 0;
+    pub static mut CUR: [u8; PRE] = [0; PRE];
+    pub static mut CUR_LEN: usize = 0;
+    pub static mut LOG: [[u8; PRE]; MAXCALLS] = [[0; PRE]; MAXCALLS];
+    pub static mut LOG_LEN: [usize; MAXCALLS] = [0; MAXCALLS];
+    pub static mut LOG_KIND: [u8; MAXCALLS] = [0; MAXCALLS]; // 1 = sha256d, 2 = hash160
+
+    pub fn init(d: [[u8; 32]; MAXCALLS]) {
+        unsafe { DIGESTS = d; }
+    }
+
+    pub fn stub_engine_input(_e: &mut sha256::HashEngine, data: &[u8]) {
+        unsafe {
+            let l = CUR_LEN;
+            let n = data.len();
+            // element loops, not copy_from_slice: CBMC's memcpy model on these arrays is far slower [measured]
+            if l + n <= PRE {
+                let mut i = 0;
+                while i < n { CUR[l + i] = data[i]; i += 1; }
+            }
+            CUR_LEN = l + n;
+        }
+    }
+    fn fin(kind: u8) -> [u8; 32] {
+        unsafe {
+            let k = N_FIN;
+            if k >= MAXCALLS {
+                panic!("verif model: hash call log capacity exceeded");
+            }
+            let mut i = 0;
+            while i < CUR_LEN && i < PRE { LOG[k][i] = CUR[i]; i += 1; }
+            LOG_LEN[k] = CUR_LEN;
+            LOG_KIND[k] = kind;
+            CUR_LEN = 0;
+            N_FIN = k + 1;
+            DIGESTS[k]
+        }
+    }
+    pub fn stub_sha256d_fin(_e: sha256::HashEngine) -> sha256d::Hash {
+        sha256d::Hash::from_byte_array(fin(1))
+    }
+    pub fn stub_hash160_fin(_e: sha256::HashEngine) -> hash160::Hash {
+        let d = fin(2);
+        let mut o = [0u8; 20];
+        let mut i = 0;
+        while i < 20 { o[i] = d[i]; i += 1; }
+        hash160::Hash::from_byte_array(o)
+    }
+
+    fn same(a: &[u8], b: &[u8]) -> bool {
+        if a.len() != b.len() {
+            return false;
+        }
+        let mut i = 0;
+        while i < a.len() {
+            if a[i] != b[i] {
+                return false;
+            }
+            i += 1;
+        }
+        true
+    }
+
+    /// Digest of the k-th hash call, provided its pre-image and kind are as expected.
+    /// CBMC mode: looks at the call log. Native replay: computes the real hash.
+    #[cfg(not(test))]
+    pub fn sha256d_call(k: usize, pre: &[u8]) -> Option<[u8; 32]> {
+        unsafe {
+            if k < N_FIN && LOG_KIND[k] == 1 && LOG_LEN[k] == pre.len() && pre.len() <= PRE && same(&LOG[k][..pre.len()], pre) {
+                Some(DIGESTS[k])
+            } else {
+                None
+            }
+        }
+    }
+    #[cfg(test)]
+    pub fn sha256d_call(_k: usize, pre: &[u8]) -> Option<[u8; 32]> {
+        Some(sha256d::Hash::hash(pre).to_byte_array())
+    }
+    #[cfg(not(test))]
+    pub fn hash160_call(k: usize, pre: &[u8]) -> Option<[u8; 20]> {
+        unsafe {
+            if k < N_FIN && LOG_KIND[k] == 2 && LOG_LEN[k] == pre.len() && pre.len() <= PRE && same(&LOG[k][..pre.len()], pre) {
+                let mut o = [0u8; 20];
+                let mut i = 0;
+                while i < 20 { o[i] = DIGESTS[k][i]; i += 1; }
+                Some(o)
+            } else {
+                None
+            }
+        }
+    }
+    #[cfg(test)]
+    pub fn hash160_call(_k: usize, pre: &[u8]) -> Option<[u8; 20]> {
+        Some(hash160::Hash::hash(pre).to_byte_array())
+    }
+    /// Number of hash computations performed (CBMC mode); natively unknown -> returns `expect`.
+    #[cfg(not(test))]
+    pub fn n_hash_calls(_expect: usize) -> usize {
+        unsafe { N_FIN }
+    }
+    #[cfg(test)]
+    pub fn n_hash_calls(expect: usize) -> usize {
+        expect
+    }
+
+    // ---- encoders --------------------------------------------------------------------
+    pub const ENC: usize = 272;
+    pub static mut B58_CALLS: usize = 0;
+    pub static mut B58_LEN: usize = 0;
+    pub static mut B58: [u8; ENC] = [0; ENC];
+    pub static mut B58CK_CALLS: usize = 0;
+    pub static mut B58CK_LEN: usize = 0;
+    pub static mut B58CK: [u8; ENC] = [0; ENC];
+    pub static mut BECH_CALLS: usize = 0;
+    pub static mut BECH_LEN: usize = 0;
+    pub static mut BECH: [u8; ENC] = [0; ENC];
+    pub static mut BECH_VER: u8 = 0xff;
+    pub static mut BECH_HRP: [u8; 4] = [0; 4];
+    pub static mut BECH_HRP_LEN: usize = 0;
+
+    fn rec(dst: &mut [u8; ENC], data: &[u8]) -> usize {
+        let n = data.len();
+        if n <= ENC {
+            let mut i = 0;
+            while i < n { dst[i] = data[i]; i += 1; }
+        }
+        n
+    }
+    /// stub for bitcoin::base58::encode (fork-coin path): records payload, returns "A"
+    pub fn stub_b58(data: &[u8]) -> String {
+        unsafe {
+            B58_CALLS += 1;
+            B58_LEN = rec(&mut B58, data);
+        }
+        String::from("A")
+    }
+    /// stub for bitcoin::base58::encode_check_to_fmt (rust-bitcoin Address Display)
+    pub fn stub_b58ck_fmt(f: &mut fmt::Formatter, data: &[u8]) -> fmt::Result {
+        unsafe {
+            B58CK_CALLS += 1;
+            B58CK_LEN = rec(&mut B58CK, data);
+        }
+        f.write_str("A")
+    }
+    /// stub for bech32::segwit::encode_lower_to_fmt_unchecked
+    pub fn stub_bech<W: fmt::Write>(f: &mut W, hrp: bitcoin::bech32::Hrp, v: bitcoin::bech32::Fe32, p: &[u8]) -> fmt::Result {
+        unsafe {
+            BECH_CALLS += 1;
+            BECH_LEN = rec(&mut BECH, p);
+            BECH_VER = v.to_u8();
+            let h = hrp.as_bytes();
+            BECH_HRP_LEN = h.len();
+            let mut i = 0;
+            while i < 4 && i < h.len() {
+                BECH_HRP[i] = h[i];
+                i += 1;
+            }
+        }
+        f.write_str("B")
+    }
+
+    // Dual-mode address oracles. They never allocate under a symbolic condition (a merged
+    // Some(String)/None makes CBMC's drop glue explode): `*_payload_is` says whether the encoder
+    // was called exactly once with this payload (CBMC: ghost log; native: trivially true), and
+    // `*_addr_ok` compares the produced text (CBMC: the stub's sentinel; native: the real encoding).
+    #[cfg(not(test))]
+    pub fn b58_payload_is(payload: &[u8]) -> bool {
+        unsafe { B58_CALLS == 1 && B58_LEN == payload.len() && same(&B58[..payload.len()], payload) }
+    }
+    #[cfg(test)]
+    pub fn b58_payload_is(_payload: &[u8]) -> bool {
+        true
+    }
+    #[cfg(not(test))]
+    pub fn b58_addr_ok(addr: Option<&str>, _payload: &[u8]) -> bool {
+        addr == Some("A")
+    }
+    #[cfg(test)]
+    pub fn b58_addr_ok(addr: Option<&str>, payload: &[u8]) -> bool {
+        addr == Some(bitcoin::base58::encode(payload).as_str())
+    }
+    #[cfg(not(test))]
+    pub fn b58ck_payload_is(payload: &[u8]) -> bool {
+        unsafe { B58CK_CALLS == 1 && B58CK_LEN == payload.len() && same(&B58CK[..payload.len()], payload) }
+    }
+    #[cfg(test)]
+    pub fn b58ck_payload_is(_payload: &[u8]) -> bool {
+        true
+    }
+    #[cfg(not(test))]
+    pub fn b58ck_addr_ok(addr: Option<&str>, _payload: &[u8]) -> bool {
+        addr == Some("A")
+    }
+    #[cfg(test)]
+    pub fn b58ck_addr_ok(addr: Option<&str>, payload: &[u8]) -> bool {
+        addr == Some(bitcoin::base58::encode_check(payload).as_str())
+    }
+    #[cfg(not(test))]
+    pub fn bech_payload_is(hrp: &str, ver: u8, prog: &[u8]) -> bool {
+        unsafe {
+            let h = hrp.as_bytes();
+            BECH_CALLS == 1 && BECH_VER == ver && BECH_LEN == prog.len() && same(&BECH[..prog.len()], prog)
+                && BECH_HRP_LEN == h.len() && same(&BECH_HRP[..h.len()], h)
+        }
+    }
+    #[cfg(test)]
+    pub fn bech_payload_is(_hrp: &str, _ver: u8, _prog: &[u8]) -> bool {
+        true
+    }
+    #[cfg(not(test))]
+    pub fn bech_addr_ok(addr: Option<&str>, _hrp: &str, _ver: u8, _prog: &[u8]) -> bool {
+        addr == Some("B")
+    }
+    #[cfg(test)]
+    pub fn bech_addr_ok(addr: Option<&str>, hrp: &str, ver: u8, prog: &[u8]) -> bool {
+        let h = match bitcoin::bech32::Hrp::parse(hrp) { Ok(h) => h, Err(_) => return false };
+        let v = match bitcoin::bech32::Fe32::try_from(ver) { Ok(v) => v, Err(_) => return false };
+        match bitcoin::bech32::segwit::encode(h, v, prog) { Ok(t) => addr == Some(t.as_str()), Err(_) => false }
+    }
+    /// Number of encoder calls (CBMC mode) — natively returns `expect`.
+    #[cfg(not(test))]
+    pub fn n_encoder_calls(_expect: usize) -> usize {
+        unsafe { B58_CALLS + B58CK_CALLS + BECH_CALLS }
+    }
+    #[cfg(test)]
+    pub fn n_encoder_calls(expect: usize) -> usize {
+        expect
+    }
+}
+
+// ---------------------------------------------------------------------------------------
+// hooks: function-entry hooks inserted by the overlay generator (cfg(kani), scratch copy only)
+// at the top of BlkFile::read_block and ChainStorage::get_block. They are inert unless a
+// harness switches them on. They replace #[kani::stub] for the two *contract* stubs of the
+// driver decomposition (DESIGN §3 C02) so that the same code runs under CBMC and in the native
+// replay of a counterexample.
+// ---------------------------------------------------------------------------------------
+pub mod hooks {
+    use crate::blockchain::proto::block::Block;
+    use crate::blockchain::proto::header::BlockHeader;
+    use crate::blockchain::proto::varuint::VarUint;
+    use crate::blockchain::proto::Hashed;
+    use bitcoin::hashes::{sha256d, Hash};
+    use std::path::Path;
+
+    // ---- BlkFile::read_block: marker block carrying (file id, offset) -----------------
+    pub static mut RB_STUB_ON: bool = false;
+    pub static mut RB_CALLS: usize = 0;
+    pub static mut RB_FILE: [u64; 8] = [0; 8];
+    pub static mut RB_OFFSET: [u64; 8] = [0; 8];
+
+    pub fn file_id(p: &Path) -> u64 {
+        let b = p.as_os_str().as_encoded_bytes();
+        if b.is_empty() { 0 } else { b[b.len() - 1].wrapping_sub(b'0') as u64 }
+    }
+    pub fn marker_block(file: u64, offset: u64) -> Block {
+        unsafe {
+            if RB_CALLS < 8 {
+                RB_FILE[RB_CALLS] = file;
+                RB_OFFSET[RB_CALLS] = offset;
+            }
+            RB_CALLS += 1;
+        }
+        let z = sha256d::Hash::all_zeros();
+        let header = BlockHeader { version: file as u32, prev_hash: z, merkle_root: z, timestamp: (offset >> 32) as u32, bits: 0, nonce: offset as u32 };
+        Block { size: offset as u32, header: Hashed { hash: z, value: header }, aux_pow_extension: None, tx_count: VarUint::from(0u8), txs: Vec::new() }
+    }
+
+    // ---- ChainStorage::get_block: the contract proved by the get_block_one harness ------
+    pub static mut GB_STUB_ON: bool = false;
+    pub static mut GB_CALLS: usize = 0;
+    pub static mut GB_HEIGHTS: [u64; 8] = [0; 8];
+    pub static mut GB_NONE_AT: usize = usize::MAX; // concrete call number answering Ok(None)
+    pub static mut GB_ERR_AT: usize = usize::MAX; // concrete call number answering Err
+
+    pub fn height_block(height: u64) -> Block {
+        let z = sha256d::Hash::all_zeros();
+        let header = BlockHeader { version: 1, prev_hash: z, merkle_root: z, timestamp: (height >> 32) as u32, bits: 0, nonce: height as u32 };
+        Block { size: height as u32, header: Hashed { hash: z, value: header }, aux_pow_extension: None, tx_count: VarUint::from(0u8), txs: Vec::new() }
+    }
+    pub fn get_block_contract(height: u64) -> crate::common::Result<Option<Block>> {
+        let k = unsafe {
+            let k = GB_CALLS;
+            if k < 8 { GB_HEIGHTS[k] = height; }
+            GB_CALLS += 1;
+            k
+        };
+        if k == unsafe { GB_NONE_AT } {
+            return Ok(None);
+        }
+        if k == unsafe { GB_ERR_AT } {
+            return Err("verif: injected read error".into());
+        }
+        Ok(Some(height_block(height)))
+    }
+}
+
+// ---------------------------------------------------------------------------------------
+// fmtm: the overlay shadows `format!` in the three file-producing callbacks with this function.
+// Default: the real alloc::fmt::format. Harnesses whose property does not depend on the text
+// (C10 fault schedules) switch to a constant two-byte row so that CBMC does not execute std's
+// formatting machinery; the switch behaves identically in the native replay.
+// ---------------------------------------------------------------------------------------
+pub mod fmtm {
+    pub static mut CONST_ROWS: bool = false;
+    pub fn format(args: core::fmt::Arguments<'_>) -> String {
+        if unsafe { CONST_ROWS } {
+            String::from("ab")
+        } else {
+            alloc_format(args)
+        }
+    }
+    fn alloc_format(args: core::fmt::Arguments<'_>) -> String {
+        std::fmt::format(args)
     }
 }
